@@ -220,6 +220,7 @@ pub fn profile() -> Profile {
     p.p_odd_spelling = 70;
     p.max_txs = 8;
     p.hostile = true;
+    p.p_teleport = 1;
     p
 }
 
